@@ -14,7 +14,7 @@ use crate::exec::{guarded, snap, snap_matches, Caught, Out, World};
 use crate::types::*;
 
 pub const N_WRITERS: u8 = 15;
-pub const N_READERS: u8 = 13;
+pub const N_READERS: u8 = 14;
 pub const N_SWAP_KINDS: u8 = 7;
 pub const N_WRONG_TYPES: u8 = 7;
 
@@ -370,6 +370,8 @@ fn read_through<T: Elem, Tr: ?Sized + TrX, MV: MX>(v: &AnyVec<Tr, MV>, r: u8, i:
         9 => { let e = v.at(i); unsafe { e.downcast_ref_unchecked::<T>() }.id() }
         10 => { let n = v.len(); v.iter().rev().nth(n - 1 - i).unwrap().downcast_ref::<T>().unwrap().id() }
         11 => { let e = v.at(i); let c = e.clone(); drop(e); c.downcast_ref::<T>().unwrap().id() }
-        _ => { let r = v.downcast_ref::<T>().unwrap(); let r2 = r.clone(); drop(r); r2.as_slice()[i].id() }
+        12 => { let r = v.downcast_ref::<T>().unwrap(); let r2 = r.clone(); drop(r); r2.as_slice()[i].id() }
+        // `Clone::clone_from` into a handle that referred to ANOTHER element
+        _ => { let n = v.len(); let mut c = v.at(if i == 0 { n - 1 } else { 0 }).clone(); let e = v.at(i); c.clone_from(&e); drop(e); c.downcast_ref::<T>().unwrap().id() }
     }
 }
